@@ -55,6 +55,8 @@ func runHistory(c *core.Ctx, r *core.Rand, o histOpts) {
 		if o.FanIn && t >= o.NTx-9 {
 			ops = fanInOps(e, t-(o.NTx-9))
 			c.Count("fan_in_steps", 1)
+		} else if o.FanIn && t >= o.NTx-13 {
+			ops = setSwapOps(e, t-(o.NTx-13))
 		}
 		if len(ops) == 0 {
 			continue
@@ -100,6 +102,24 @@ func runHistory(c *core.Ctx, r *core.Rand, o histOpts) {
 	if c.WantSample() {
 		c.Sample(map[string]any{"cfg": o.Cfg.String(), "first_transactions": tailHistHead(hist, 3)})
 	}
+}
+
+// setSwapOps scripts four patches of one employee's set field with values whose concatenations collide: {ab, c} ->
+// {a, bc} (same bytes when joined) -> {a<0x05>b, c} -> {a, b<0x05>c} (same bytes when joined with the storage type tag).
+// The set index must follow every step.
+func setSwapOps(e *kmodel.Engine, step int) []kmodel.Op {
+	var id string
+	for _, cand := range []string{"e1", "E1", "or", "e 2"} {
+		if _, ok := e.M.Ents[kmodel.Emps][cand]; ok {
+			id = cand
+			break
+		}
+	}
+	if id == "" {
+		return nil
+	}
+	roles := [][]string{{"ab", "c"}, {"a", "bc"}, {"a\x05b", "c"}, {"a", "b\x05c"}}[step]
+	return []kmodel.Op{{Kind: "patch", Store: kmodel.Emps, Id: id, V: map[string]any{"roles": roles}, Fields: []string{"roles"}}}
 }
 
 // fanInOps scripts the end of a history: step 0 makes sure dept d1 exists, steps 1-6 create (or rewrite) six employees
@@ -161,6 +181,12 @@ func fanInOps(e *kmodel.Engine, step int) []kmodel.Op {
 		return []kmodel.Op{extra("e\n"), {Kind: "delete", Store: kmodel.Depts, Id: "d1"}}
 	}
 	return []kmodel.Op{extra("e\nl"), {Kind: "delete", Store: kmodel.Emps, Id: emps[0]}}
+}
+
+// sharedIds makes the id universes of the two stores overlap (the same string names an employee and a department).
+func sharedIds(e *kmodel.Engine) {
+	e.EmpPool = append(append([]string{}, kmodel.EmpIds[:5]...), "d1", "D1", "null")
+	e.DeptPool = append(append([]string{}, kmodel.DeptIds[:4]...), "e1", "E1", "or")
 }
 
 func tailHist(h [][]kmodel.Op, n int) [][]kmodel.Op {
